@@ -13,7 +13,7 @@ from ..astq import U, fn_walk
 from ..interp import Closure, Obj, Raised, Sym, Undecided
 from ..loader import AnalysisError
 from ..poly import NotPolynomial, Poly
-from .buffer import BufInterp, P, Q, T, V, _adapter_obj, _expected_remaining, _fresh
+from .buffer import PREV as PREV_KEY, BufInterp, P, Q, T, V, _adapter_obj, _expected_remaining, _fresh, prev_attr
 
 PREV = Sym("p")
 STEP = Sym("step")
@@ -229,9 +229,11 @@ def r29_integ(repo, sink, tier="quick"):
                             for rp, rq, rs in combos:
                                 order = _scenario_order(n, ppos, qpos, rp if rp is not None else 0, rq if rq is not None else 0, rs)
                                 it = IntegInterp(repo, order)
-                                extra = {"_prev_time": PREV, "_step": STEP if step_mode == "step" else None,
-                                         "_per_time": per_time, "_initial_interval": INIT_IV}
-                                o = _fresh(_adapter_obj(repo, cname, n, extra=extra))
+                                extra = {PREV_KEY: PREV}
+                                ctor = {"step": STEP if step_mode == "step" else None}
+                                if kind == "Sum":
+                                    ctor.update(per_time=per_time, initial_interval=INIT_IV)
+                                o = _fresh(_adapter_obj(repo, cname, n, extra=extra, ctor=ctor))
                                 cases += 1
                                 exp = _expected(kind, n, ppos, qpos, rp or 0, rq or 0, rs, per_time)
                                 where = _txt(n, ppos, qpos, rs)
@@ -240,8 +242,8 @@ def r29_integ(repo, sink, tier="quick"):
                                     if not _eq(got, exp, order):
                                         return (f"{where}: returns {_short(got)}, the exact "
                                                 f"{'average' if kind == 'Avg' else 'integral'} of the interpolant is {_short(exp)}")
-                                    if obj.fields["_prev_time"] != Q:
-                                        return f"{where}: _prev_time is {obj.fields['_prev_time']!r} after the pull, must be the request time"
+                                    if obj.fields[prev_attr(repo)] != Q:
+                                        return f"{where}: the remembered previous-pull time is {obj.fields[prev_attr(repo)]!r} after the pull, must be the request time"
                                     keep = _expected_remaining(n, _pos_rank(ppos))
                                     kept = [d[1].args[0] for d in obj.fields["data"]]
                                     if kept != keep:
@@ -261,7 +263,7 @@ def r29_integ(repo, sink, tier="quick"):
                                     objs = []
 
                                     def thunk():
-                                        ob = _fresh(_adapter_obj(repo, cname, n, extra=extra))
+                                        ob = _fresh(_adapter_obj(repo, cname, n, extra=extra, ctor=ctor))
                                         objs.append(ob)
                                         return (it2.run(f, [Q, None], self_obj=ob), ob)
 
@@ -289,7 +291,7 @@ def r29_integ(repo, sink, tier="quick"):
     order.rank["dur"] = 0
     order.name(0, "zero-duration", 0)
     it = IntegInterp(repo, order)
-    o = _fresh(_adapter_obj(repo, "AvgOverTime", 2, extra={"_prev_time": PREV, "_step": None}))
+    o = _fresh(_adapter_obj(repo, "AvgOverTime", 2, extra={PREV_KEY: PREV}, ctor={"step": None}))
     try:
         it.run(f, [Q, None], self_obj=o)
         sink.bad("R29", "avg-zero-length", f, "average over a zero-length interval does not raise")
@@ -349,7 +351,7 @@ def r28_dim(repo, sink):
     for per_time in (True, False):
         order = _scenario_order(1, ("eq", 0), ("eq", 0), 0, 0, None)
         it = IntegInterp(repo, order)
-        o = _fresh(_adapter_obj(repo, "SumOverTime", 1, extra={"_prev_time": PREV, "_step": STEP, "_per_time": per_time, "_initial_interval": INIT_IV}))
+        o = _fresh(_adapter_obj(repo, "SumOverTime", 1, extra={PREV_KEY: PREV}, ctor={"step": STEP, "per_time": per_time, "initial_interval": INIT_IV}))
         got = it.run(f, [Q], self_obj=o)
         e = _time_exp(got)
         sink.check(e == (1 if per_time else 0), "R28", f"initial-branch:per_time={per_time}", f,
